@@ -47,10 +47,25 @@ def log_event(ev, **fields):
 
 def _maybe_interrupt(site, chain, stage, k):
     it = PLAN["interrupt"]
-    if it and not _FIRED[0] and it["site"] == site and it["chain"] == chain and it["stage"] == stage and it["k"] == k:
+    if not it or _FIRED[0] or it["site"] != site or it["stage"] != stage or it["k"] != k:
+        return
+    if it["chain"] == chain:
         _FIRED[0] = True
         log_event("Interrupt", site=site, c=chain, s=stage, k=k)
         raise KeyboardInterrupt
+    if it["chain"] == 0:
+        # "Ctrl-C": every chain reaching this point is interrupted.  With a signal directory the
+        # interrupt is a REAL SIGINT sent to the whole process group by the harness once every
+        # running chain waits here; otherwise (sequential runs) it is raised in place.
+        _FIRED[0] = True
+        log_event("Interrupt", site=site, c=chain, s=stage, k=k)
+        sd = PLAN.get("signal_dir")
+        if sd is None:
+            raise KeyboardInterrupt
+        open(os.path.join(sd, f"at_barrier_{chain}"), "w").close()
+        for _ in range(3000):
+            time.sleep(0.01)      # KeyboardInterrupt is delivered here by the real signal
+        raise RuntimeError("probe: the expected SIGINT never arrived")
 
 
 USER, INIT, UPD, FIN = 0.0, 1.0e6, 2.0e6, 3.0e6
@@ -182,8 +197,10 @@ class FixedStager(Stager):
         out = {}
         for s, st in enumerate(self.layout, start=1):
             ads = [ProbeAdapter(a, s, a == "fast") for a in sorted(st["adapters"])]
+            # an (empty) adapter list for the first transition precedes the probe's adapters: legal,
+            # and what the windowed stager produces when a transition has only slow adapters
             out[f"stage {s}"] = ChainStage(
-                n_iter=st["n"], adapters={"probe": ads} if ads else None,
+                n_iter=st["n"], adapters={"stamp": [], "probe": ads} if ads else None,
                 trace_funcs=tuple(trace_funcs) if st["traced"] else None, record_stats=st["stats"])
         return out
 
